@@ -53,6 +53,8 @@ pub fn spin_and_get_forwarded_object<VM: VMBinding>(
     object: ObjectReference,
     forwarding_bits: u8,
 ) -> ObjectReference {
+    #[cfg(feature = "mmtk_verif")]
+    crate::verif::fp(crate::verif::FP_FORWARD_LOSER);
     let mut forwarding_bits = forwarding_bits;
     while forwarding_bits == BEING_FORWARDED {
         forwarding_bits = get_forwarding_status::<VM>(object);
@@ -98,6 +100,8 @@ pub fn forward_object<VM: VMBinding>(
 ) -> ObjectReference {
     let new_object = VM::VMObjectModel::copy(object, semantics, copy_context);
     on_after_forwarding(new_object);
+    #[cfg(feature = "mmtk_verif")]
+    crate::verif::fp(crate::verif::FP_FORWARD_WINDOW);
     if let Some(shift) = forwarding_bits_offset_in_forwarding_pointer::<VM>() {
         VM::VMObjectModel::LOCAL_FORWARDING_POINTER_SPEC.store_atomic::<VM, usize>(
             object,
@@ -107,6 +111,8 @@ pub fn forward_object<VM: VMBinding>(
         )
     } else {
         write_forwarding_pointer::<VM>(object, new_object);
+        #[cfg(feature = "mmtk_verif")]
+        crate::verif::fp(crate::verif::FP_FORWARD_WINDOW);
         VM::VMObjectModel::LOCAL_FORWARDING_BITS_SPEC.store_atomic::<VM, u8>(
             object,
             FORWARDED,
